@@ -250,7 +250,7 @@ def node_kind(n):
 # ---------------------------------------------------------------------------------------------
 
 class Entry:
-    __slots__ = ('node', 'names', 'fid', 'written', 'is_loop', 'iter', 'lastw', 'is_leafcall')
+    __slots__ = ('node', 'names', 'fid', 'written', 'is_loop', 'iter', 'lastw', 'start_seq', 'iter_seq')
 
     def __init__(self, node, names, fid, is_loop):
         self.node = node
@@ -260,6 +260,8 @@ class Entry:
         self.is_loop = is_loop
         self.iter = 0
         self.lastw = {} if is_loop else None
+        self.start_seq = 0
+        self.iter_seq = None      # event number at which the current iteration of a Loop / WhileLoop started
 
 
 class Monitor:
@@ -346,7 +348,7 @@ class Monitor:
         kern_fid = None
         for t in self.raw_tasks:
             t['lastw'] = {}
-        for ev in log:
+        for seq, ev in enumerate(log):
             tag = ev[0]
             if tag == 'R':
                 c['reads'] += 1
@@ -379,7 +381,7 @@ class Monitor:
                                 nms = e.names.get(sid)
                                 if nms is not None:
                                     self._lcd_dep(e, stack, sid, nms, it, bindings, label,
-                                                  frames[e.fid]['lastw'].get(sid))
+                                                  (frames[e.fid]['lastw'].get(sid) or (None,))[0])
                         inner = e
                 if do_raw:
                     self._raw_event(stack, kern_fid, 'R', sid, el, label, bindings)
@@ -418,7 +420,7 @@ class Monitor:
                             seen.add(e.fid)
                             fr = frames.get(e.fid)
                             if fr is not None:
-                                fr['lastw'][sid] = e.node
+                                fr['lastw'][sid] = (e.node, seq)
                 if do_raw:
                     self._raw_event(stack, kern_fid, 'W' if not ind else 'I', sid, el, label, bindings)
             elif tag == 'E':
@@ -428,6 +430,7 @@ class Monitor:
                     c['callee_activations'] += 1
                 is_loop = isinstance(node, ir.Loop)
                 e = Entry(node, names, fid, is_loop)
+                e.start_seq = seq
                 if is_loop and do_lcd:
                     c['lcd_loops'] += 1
                 if do_live:
@@ -439,12 +442,13 @@ class Monitor:
                         if sid in valued and sid not in outp:
                             c['live_checks'] += 1
                             if not any(n in live for n in nms) and nms[0] not in lv:
-                                self._diag_live(node, fr, sid, nms, bindings, label)
+                                self._diag_live(node, fr, sid, nms, bindings, label, stack)
                 stack.append(e)
             elif tag == 'X':
                 stack.pop()
             elif tag == 'I':
                 stack[-1].iter = ev[2]
+                stack[-1].iter_seq = seq
             elif tag == 'F':
                 fid, routine, names, vals = ev[1], ev[2], ev[3], ev[4]
                 if kern_fid is None:
@@ -602,9 +606,9 @@ class Monitor:
                      'defines_symbols': sorted(self.nsets(node)[0]),
                      'child': self._src(inner.node) if inner is not None else None})
 
-    def _diag_live(self, node, fr, sid, nms, bindings, label):
+    def _diag_live(self, node, fr, sid, nms, bindings, label, stack=()):
         ir = self.ir
-        w = fr['lastw'].get(sid)
+        w, wseq = fr['lastw'].get(sid) or (None, None)
         routine = fr['routine']
         name = nms[0]
         if w is None:
@@ -617,7 +621,9 @@ class Monitor:
         else:
             pre = fr['pre']
             pw, pn = pre.get(id(w)), pre.get(id(node))
-            if pw is not None and pn is not None and pw >= pn:
+            # written in an earlier iteration of a loop activation that is still running?
+            earlier_iter = any(e.iter_seq is not None and e.start_seq <= wseq < e.iter_seq for e in stack)
+            if earlier_iter or (pw is not None and pn is not None and pw >= pn):
                 detail = 'loop-back-edge'
             elif isinstance(w, ir.CallStatement):
                 fake = Entry(w, fr['names'], None, False)
@@ -889,7 +895,8 @@ def raw_hazard(stmts, p):
         return 'associate'
     pend = set()
     for s in stmts[p:]:
-        partial = s['W'] - s['M']
+        # IF constructs whose branches hold only scalar assignments are handled exactly by FindReads
+        partial = set() if s.get('pure_if') else s['W'] - s['M']
         if s['compound'] and (partial & s['R'] & wbefore):
             return 'partial-definition-inside-compound'
         if s['R'] & pend & wbefore:
